@@ -747,7 +747,7 @@ Proof.
   - (* CYield *)
     destruct k as [| |c].
     + apply Q, hstep_refl.
-    + destruct inc; [apply Q, hstep_refl|]. cbn [fst blocked].
+    + destruct inc; [apply Q, hstep_refl|]. destruct (ckif_spins _ _ _); [|apply Q, hstep_refl]. cbn [fst blocked].
       apply (HDI_hq s); [exact H|eapply hq_trans; [apply hq_bare_yield|apply hq_set_running]].
     + pose proof (H_exit s c t inc) as K. destruct (scope_exit s c t inc) as [s1 x]. cbn [fst] in K.
       destruct x; now apply Q.
